@@ -248,6 +248,15 @@ func init() {
 			if a.Verifier != "" {
 				form.Set("code_verifier", a.Verifier)
 			}
+		case "certgencert":
+			// the cookie travels together with a (valid) keymaster client certificate of the same user; where the
+			// certificate alone does not suffice for a certificate, the answer shows whether the cookie was counted
+			uc := w.art("last:usercert:" + a.Subject)
+			if uc == nil || uc.Cert == nil || containsStr(w.cfg.CertBackends, "password") {
+				return nil
+			}
+			r = &vfReq{Method: "POST", Path: "/certgen/" + a.Subject, Cookies: map[string]string{authCookieName: a.Value}, Header: map[string]string{},
+				Multi: map[string]string{"@pubkeyfile": vfKey("user_p256_1").sshPub()}, Cert: uc.Cert}
 		case "userinfo":
 			r = &vfReq{Method: "GET", Path: "/idp/oauth2/userinfo", Header: map[string]string{"Authorization": "Bearer " + a.Value}}
 		case "clisendother":
@@ -477,6 +486,9 @@ func (w *vfWorld) judgePresent(a *vfArtefact, consumer string, honoured, expect 
 		}
 		w.violate("C04", cls, key, fmt.Sprintf("%s artefact (%s, forged=%q, exp in %v) was honoured by consumer %s", a.Kind, a.Subject, a.Forged, time.Until(a.Exp).Round(time.Second), consumer))
 	}
+	if consumer == "certgencert" {
+		expect = honoured // a password-level cookie rightly does not suffice here: only being counted wrongly is judged
+	}
 	if !honoured && expect && w.cleanWindow() {
 		w.violate("C04", "authentic-refused", "authentic-refused:"+a.Kind+"->"+consumer, fmt.Sprintf("an authentic, unexpired %s artefact was refused by %s", a.Kind, consumer))
 	}
@@ -484,7 +496,7 @@ func (w *vfWorld) judgePresent(a *vfArtefact, consumer string, honoured, expect 
 
 func vfKindFits(kind, consumer string) bool {
 	switch consumer {
-	case "session", "sessionpost", "certgen":
+	case "session", "sessionpost", "certgen", "certgencert":
 		return kind == "cookie"
 	case "token":
 		return kind == "code"
@@ -672,6 +684,8 @@ func (w *vfWorld) observePresent(ctx *vfReqCtx, pr *vfPresent, resp *vfResp) {
 		if resp.Code == 401 && strings.Contains(string(resp.Body), "Not enough auth level") {
 			honoured = true // authenticated, only the level was insufficient
 		}
+	case "certgencert":
+		honoured = resp.Code == 200 // the certificate alone gets "not enough auth level"
 	case "token", "tokenother":
 		honoured = resp.Code == 200
 	case "clisendother":
@@ -740,6 +754,15 @@ func genTokenPlan(r *rand.Rand, tier, focus string) *vfPlan {
 	for i, s := range []string{"s1", "s2", "s3"} {
 		add(vfStep{Op: "login", Sess: s, User: users[i]})
 	}
+	if focus == "C04" && chance(r, 0.5) {
+		// a deployment where a certificate needs a second factor; sessions that carry one (some short-lived), and a
+		// client certificate of the same user
+		p.Cfg.CertBackends = []string{"U2F", "TOTP"}
+		u := pick(r, users)
+		add(vfStep{Op: "mintsession", Sess: "m1", User: u, N: int64(AuthTypeU2F | AuthTypePassword), D: pick(r, []string{"45s", "10m", "16h"})})
+		add(vfStep{Op: "mintsession", Sess: "cs", User: u, N: int64(AuthTypeU2F | AuthTypePassword)})
+		add(vfStep{Op: "certgen", Sess: "cs", User: u, A: "x509", B: "user_p256_2", D: "20h"})
+	}
 	if focus == "C04" {
 		// honest flows first, so that every kind of artefact exists early in the run
 		add(vfStep{Op: "oidc_authorize", Sess: "s1", A: "clientA", L: []string{"redirect:same", "nonce:yes", "method:nochallenge"}})
@@ -750,7 +773,7 @@ func genTokenPlan(r *rand.Rand, tier, focus string) *vfPlan {
 	}
 	clients := []string{"clientA", "clientB", "clientC", "clientD"}
 	kinds := []string{"cookie", "code", "idtoken", "access", "clitoken", "storage"}
-	consumers := []string{"session", "sessionpost", "certgen", "token", "userinfo", "cliverify", "clisend", "storage", "tokenother", "clisendother", "storageother"}
+	consumers := []string{"session", "sessionpost", "certgen", "token", "userinfo", "cliverify", "clisend", "storage", "tokenother", "clisendother", "storageother", "certgencert"}
 	forgeries := []string{"foreignkey", "none", "hs256", "hs256pem", "corrupt:header", "corrupt:payload", "corrupt:signature",
 		"claim:iss", "claim:aud", "claim:nbf", "claim:exp", "fclaim:sub", "fclaim:level", "fclaim:exp"}
 	n := 10 + r.IntN(16)
@@ -818,7 +841,7 @@ func genTokenPlan(r *rand.Rand, tier, focus string) *vfPlan {
 			fc := pick(r, consumers)
 			if strings.HasPrefix(fh, "claim:") || chance(r, 0.4) {
 				// a single-claim mutant says something only to the consumer of its own kind
-				fc = pick(r, map[string][]string{"cookie": {"session", "sessionpost", "certgen"}, "code": {"token"}, "idtoken": {"userinfo"}, "access": {"userinfo"},
+				fc = pick(r, map[string][]string{"cookie": {"session", "sessionpost", "certgen", "certgencert"}, "code": {"token"}, "idtoken": {"userinfo"}, "access": {"userinfo"},
 					"clitoken": {"cliverify", "clisend"}, "storage": {"storage"}}[fk])
 			}
 			add(vfStep{Op: "forge", A: "last:" + fk, B: fh, N: int64(r.IntN(40))})
@@ -828,7 +851,7 @@ func genTokenPlan(r *rand.Rand, tier, focus string) *vfPlan {
 			c := pick(r, consumers)
 			if focus == "C04" && chance(r, 0.45) {
 				// the consumer this kind is meant for (so that the run also contains rightful use)
-				c = pick(r, map[string][]string{"cookie": {"session", "sessionpost", "certgen"}, "code": {"token", "tokenother"}, "idtoken": {"userinfo"}, "access": {"userinfo"},
+				c = pick(r, map[string][]string{"cookie": {"session", "sessionpost", "certgen", "certgencert"}, "code": {"token", "tokenother"}, "idtoken": {"userinfo"}, "access": {"userinfo"},
 					"clitoken": {"cliverify", "clisend", "clisendother"}, "storage": {"storage", "storageother"}}[k])
 			}
 			add(vfStep{Op: "present", A: "last:" + k, B: c})
